@@ -365,6 +365,24 @@ def filterMatches (d : Defects) (dflt : Option Scalar) (stored : Option Scalar) 
     | some dv => if sqlEq (some dv) x then sqlEq stored x || sqlIsNull stored else sqlEq stored x
     | none => sqlEq stored x
 
+/-! ## Updating a row (`mutation_query.rs:144-315`): the previous content is kept, assigned fields overwritten -/
+
+/-- the scalar fields of a row: position ↦ stored value (none = no entry in `_json`) -/
+abbrev RowVals := List (Option Scalar)
+
+def setField : RowVals → Nat → Scalar → RowVals
+  | [], _, _ => []
+  | _ :: t, 0, v => some v :: t
+  | x :: t, j + 1, v => x :: setField t j v
+
+/-- `mutate { T { id:$id fj:v … } }`: the assigned fields in the order given -/
+def applyUpdate (row : RowVals) : List (Nat × Scalar) → RowVals
+  | [] => row
+  | (j, v) :: rest => applyUpdate (setField row j v) rest
+
+/-- what a query of every field returns for the row -/
+def readRow (row : RowVals) : List Scalar := row.map fun x => x.getD .null
+
 /-! ## The SQL statement of a query as a token list (`query.rs`) -/
 
 /-- `ParamValue` of a literal or default value (`Binary` is a `str` here) -/
